@@ -27,16 +27,33 @@ import (
 	"verifsim/core"
 )
 
+// failWriter refuses, once, the write that would start its failAt-th line (0 = never). Counting lines rather
+// than Write calls keeps the fault independent of how many calls the trace store uses per line.
 type failWriter struct {
 	buf    bytes.Buffer
-	calls  int
+	lines  int // complete lines written
+	mid    bool // the last write left a line unfinished
+	failed bool
 	failAt int
 }
 
+// wouldFail: the next write that starts a line will be refused.
+func (w *failWriter) wouldFail() bool {
+	return w.failAt > 0 && !w.failed && !w.mid && w.lines == w.failAt-1
+}
+
 func (w *failWriter) Write(p []byte) (int, error) {
-	w.calls++
-	if w.failAt > 0 && w.calls == w.failAt {
+	if w.wouldFail() {
+		w.failed = true
 		return 0, errors.New("simulated trace writer failure")
+	}
+	for _, b := range p {
+		if b == '\n' {
+			w.lines++
+		}
+	}
+	if len(p) > 0 {
+		w.mid = p[len(p)-1] != '\n'
 	}
 	return w.buf.Write(p)
 }
@@ -484,9 +501,7 @@ func (e *exec) do(op *Op) {
 	w := e.writers[op.N]
 	// expected trace-writer behaviour of one writeOperation: (panics?, line recorded?)
 	traceWrite := func(tl traceLine) (panics bool) {
-		// first Write call (the JSON), second ("\n", error ignored)
-		c1 := w.calls + 1
-		if w.failAt > 0 && c1 == w.failAt {
+		if w.wouldFail() {
 			return true
 		}
 		e.expTrace[op.N] = append(e.expTrace[op.N], tl)
@@ -898,8 +913,7 @@ func (e *exec) iterOp(op *Op, prop string) {
 		exp := ""
 		if isTrace {
 			// expected line is appended after the call (it needs the actual bytes only under the weak rule)
-			c1 := w.calls + 1
-			if w.failAt > 0 && c1 == w.failAt {
+			if w.wouldFail() {
 				exp = "trace"
 			}
 		}
